@@ -81,6 +81,15 @@ func genC13(r *rand.Rand, t *Trace, thorough bool) {
 		if o.fine && it%2 == 0 {
 			p.dim = 1 + r.Intn(2) // few coordinates: near-duplicate points are frequent
 		}
+		if it%6 == 1 {
+			// a tight, a wide and a medium cluster: the nearest vector of a farther cell can be closer than
+			// everything the nearer cells hold (no bound on the cell's radius may be assumed)
+			o.radii, o.fine = true, false
+			p.dim = 1 + r.Intn(3)
+			p.nlist = 2 + r.Intn(3)
+			o.ntrain = 12 + r.Intn(20)
+			o.trainFirst = true
+		}
 		c := runVecHistory(r, p, o, t)
 		t.Emit(c, "ivf.metric."+string(metrics[p.metric]))
 	}
